@@ -119,3 +119,23 @@ Theorem C01_rewrite_properties_closed_clean : forall props required ro keys,
   converted_accepts props required ro true keys = true -> sends_no_readonly ro keys = true.
 Proof. exact converted_closed_clean. Qed.
 Print Assumptions C01_rewrite_properties_closed_clean.
+
+(* converter.to_json_schema, nullable (3.x) / x-nullable (2.0), tri-state absent / true / false, applied to every nested schema:
+   the converted JSON Schema accepts null exactly when the effective keyword is true ... *)
+Theorem C01_nullable_null_iff : forall use_x s, jvalid (conv use_x s) VNull = true <-> eff use_x s = NTrue.
+Proof. exact null_iff. Qed.
+Print Assumptions C01_nullable_null_iff.
+
+(* ... and at every depth: Draft 4 validity of the converted schema is the Open API meaning, for all values *)
+Theorem C01_nullable_conversion_preserves : forall use_x s v, jvalid (conv use_x s) v = oas_valid use_x s v.
+Proof. exact conv_preserves. Qed.
+Print Assumptions C01_nullable_conversion_preserves.
+
+Theorem C01_nullable_examples :
+  jvalid (conv false o_example) (VObj [([97]%N, VNull); ([98]%N, VArr [VInt])]) = true /\
+  jvalid (conv false o_example) (VObj [([97]%N, VStr); ([98]%N, VArr [VNull])]) = false /\
+  jvalid (conv false o_example) VNull = false /\
+  jvalid (conv true o_example) (VObj [([97]%N, VNull)]) = false /\
+  jvalid (conv true o_example) (VObj [([97]%N, VStr); ([98]%N, VNull)]) = true.
+Proof. exact nullable_examples. Qed.
+Print Assumptions C01_nullable_examples.
